@@ -860,6 +860,15 @@ def contains_legs(obj, _seen=None, depth=0):
     return False
 
 
+def contains_type(obj, name):
+    import tenpy.linalg.np_conserved as npc
+    from tenpy.linalg import charges
+    t = dict(Array=npc.Array, LegPipe=charges.LegPipe)[name]
+    if name == 'LegPipe':
+        return any(isinstance(l, t) for _, l in iter_legs(obj))
+    return any(issubclass(c, t) for c in classes_in(obj)) or isinstance(obj, t)
+
+
 def classes_in(obj, acc=None, _seen=None, depth=0):
     acc = set() if acc is None else acc
     _seen = set() if _seen is None else _seen
@@ -907,6 +916,53 @@ def sanity(obj, _seen=None, depth=0):
     return None
 
 
+def sanity_strict(obj):
+    """test_sanity() at optimization level 0 ('none'), the level at which tenpy verifies cached flags"""
+    from tenpy.tools.optimization import temporary_level
+    with temporary_level(0):
+        return sanity(obj)
+
+
+def iter_legs(obj, _seen=None, depth=0, path='obj'):
+    """every LegCharge reachable from obj: in containers, attributes, Arrays, Sites, MPS, and the legs of pipes"""
+    from tenpy.linalg import charges
+    _seen = set() if _seen is None else _seen
+    if id(obj) in _seen or depth > 12:
+        return
+    _seen.add(id(obj))
+    if isinstance(obj, charges.LegCharge):
+        yield path, obj
+    if isinstance(obj, dict):
+        for k, v in obj.items():
+            yield from iter_legs(v, _seen, depth + 1, '%s[%r]' % (path, k))
+    elif isinstance(obj, (list, tuple)):
+        for j, v in enumerate(obj):
+            yield from iter_legs(v, _seen, depth + 1, '%s[%d]' % (path, j))
+    elif isinstance(obj, np.ndarray):
+        if obj.dtype.kind == 'O':
+            for j, v in enumerate(obj.flat):
+                yield from iter_legs(v, _seen, depth + 1, '%s.flat[%d]' % (path, j))
+    elif hasattr(obj, '__dict__') and not isinstance(obj, type) and type(obj).__module__.startswith('tenpy'):
+        for k, v in obj.__dict__.items():
+            yield from iter_legs(v, _seen, depth + 1, '%s.%s' % (path, k))
+
+
+def untruthful_flags(obj):
+    """cached claims of LegCharges as implications: sorted => charges lexsorted, bunched => no equal neighbouring
+    charges (recomputed with is_sorted / is_bunched, which look at the charges only)"""
+    n = 0
+    for path, leg in iter_legs(obj):
+        n += 1
+        try:
+            if leg.sorted and not leg.is_sorted():
+                return n, '%s: LegCharge flagged sorted=True but the charges are not sorted' % path
+            if leg.bunched and not leg.is_bunched():
+                return n, '%s: LegCharge flagged bunched=True but neighbouring blocks have equal charges' % path
+        except Exception as e:
+            return n, '%s: flags of LegCharge cannot be checked: %s: %s' % (path, type(e).__name__, e)
+    return n, None
+
+
 def normalise_reason(why):
     """the kind of failure without the data: drop the attribute path prefix, file paths, addresses, numbers"""
     m = re.match(r'^(obj[^:]*): (.*)$', why, re.S)
@@ -929,6 +985,8 @@ def class_layer(ctx, only_label=None):
     scratch = Scratch()
     results = {}
     ninst = 0
+    nlegs_checked = 0
+    pre_existing = []
     try:
         for label, obj in insts:
             if only_label and label != only_label:
@@ -937,6 +995,14 @@ def class_layer(ctx, only_label=None):
             for c in cls_here:
                 covered.setdefault(c, []).append(label)
             top = type(obj).__name__ if not isinstance(obj, dict) else 'dict'
+            with warnings.catch_warnings():
+                warnings.simplefilter('ignore')
+                orig_strict_ok = sanity_strict(obj) is None
+                orig_flags_ok = untruthful_flags(obj)[1] is None
+            if not orig_strict_ok or not orig_flags_ok:
+                pre_existing.append('%s: strict sanity %s, flags %s' % (label, 'ok' if orig_strict_ok else 'FAILS',
+                                                                        'ok' if orig_flags_ok else 'UNTRUTHFUL'))
+            has_array, has_pipe = contains_type(obj, 'Array'), contains_type(obj, 'LegPipe')
             media = [('pickle', None)]
             fmts = LEG_FORMATS if contains_legs(obj) else ('blocks',)
             if ctx.tier == 'quick' and len(fmts) == 3 and (hasattr(obj, 'lat') or isinstance(obj, dict)):
@@ -946,7 +1012,7 @@ def class_layer(ctx, only_label=None):
             media += [('hdf5', f) for f in fmts]
             for medium, fmt in media:
                 ctx.case('class:%s:%s:%s' % (label, medium, fmt), action='Class.%s' % medium)
-                sig = dict(kind='class', layer='class', cls=top, medium=medium, format=fmt)
+                sig = dict(kind='class', layer='class', cls=top, medium=medium, format=fmt, has_array=has_array, has_pipe=has_pipe)
                 detail = dict(label=label, medium=medium, format=fmt, classes=sorted(c.__name__ for c in cls_here))
                 try:
                     with warnings.catch_warnings():
@@ -971,12 +1037,22 @@ def class_layer(ctx, only_label=None):
                     ctx.violation(dict(sig, clause='equal', reason=normalise_reason(why)), detail)
                     results['%s/%s/%s' % (label, medium, fmt)] = 'differs'
                     continue
-                why = sanity(back)
+                # the loaded object's own sanity check, at the level that verifies cached flags (if the original
+                # itself does not pass at that level -- not a C17 matter -- at the default level)
+                why = sanity_strict(back) if orig_strict_ok else sanity(back)
                 if why:
-                    detail.update(why=why)
+                    detail.update(why=why, level='none' if orig_strict_ok else 'default')
                     ctx.violation(dict(sig, clause='sanity', reason=normalise_reason(why)), detail)
                     results['%s/%s/%s' % (label, medium, fmt)] = 'sanity'
                     continue
+                if orig_flags_ok:
+                    nl, why = untruthful_flags(back)
+                    nlegs_checked += nl
+                    if why:
+                        detail.update(why=why)
+                        ctx.violation(dict(sig, clause='flags', reason=normalise_reason(why)), detail)
+                        results['%s/%s/%s' % (label, medium, fmt)] = 'flags'
+                        continue
                 ctx.trace_ok(1)
                 results['%s/%s/%s' % (label, medium, fmt)] = 'ok'
     finally:
@@ -988,6 +1064,7 @@ def class_layer(ctx, only_label=None):
         covered_only_through_subclass_instances=names(via_sub),
         not_covered=names(c for c in classes if c not in covered and c not in via_sub),
         generators_failed=gen_failed, import_failed=import_failed,
+        legs_with_flags_recomputed=nlegs_checked, originals_failing_strict_sanity_or_flags=pre_existing,
         cases=len(results), ok=sum(1 for v in results.values() if v == 'ok'),
         failing={k: v for k, v in results.items() if v != 'ok'})
 
